@@ -11,6 +11,7 @@ use std::collections::BTreeSet;
 pub fn run(r: &mut Report) {
     crate::c01::agreement_matrix(r, crate::util::scale(12, 40), "order-independence");
     crate::c03::multi_alg(r, crate::util::scale(24, 100), "order-independence-multi-algorithm");
+    crate::c03::multi_alg_states(r, crate::util::scale(16, 60), "order-independence-two-algorithm-states");
     crate::c01::digest_shape_dissent(r, crate::util::scale(8, 40), "order-independence-digest-shapes");
     crate::c08::inspection_order(r);
     // a link file carrying a second signature entry whose (made-up) key id shares the file's 8-character prefix: which entry decides
